@@ -10,6 +10,22 @@ CHECKS = {
          "Every byte string up to 2 (quick) / 3 (thorough) bytes through the real encoder and decoder, plus a transition cover of the 256-state byte-level decoding automaton with 7 distinguishing completions and two access strings per state, all compared with an RFC 7541 reference and x/net. Decides table, canonical padding, losslessness and decode strictness for all strings whose treatment depends only on (tree position, pending bits).",
          "Trusted: ref/hufftab.go (Appendix B transcribed from x/net; cross-checked against x/net at run time). Strings longer than the BX bound are covered only through the automaton argument.",
          "DESIGN.md §4 C15"),
+ "C03": ("explicit-state search over the RFC 7541 decoder state (dynamic table x limits) executed on the real HPACK decoder, plus bounded-exhaustive byte strings for the rejection half",
+         "BFS over reference decoder states to depth 2 (quick) / 3 (thorough) header blocks under two table limits (4096 and 100, so evictions and oversized entries occur); from every state every block of the alphabet (all representations x indexed/literal name x Huffman x value-length classes incl. length==first byte, 127/128/300, size updates incl. shrink-then-grow) is decoded by the real decoder through the server's block-level step and through public Next and compared with the reference (fields, sensitivity, dynamic table, limits). Rejection half: all byte strings up to 2/3 bytes as complete blocks at three table states and a catalogue of invalid forms.",
+         "Trusted: ref/hpack.go (RFC 7541), cross-checked against x/net's decoder on every generated block. Size-update-only blocks and over-long non-overflowing integers are outside the enumerated domain. Unexported access through the injected file (inject/README).",
+         "DESIGN.md §4 C03"),
+ "C04": ("explicit-state search over (peer decoder table, allowed size, pending announcement) executed on the real HPACK encoder; every emitted block decoded by a strict RFC 7541 reference and x/net",
+         "BFS over the connection state to depth 2/3 header blocks and 2/3 SetMaxTableSize calls in 4 configurations (DisableCompression x DisableDynamicTable); transitions are blocks of 1-2 AppendHeader calls over an alphabet with static hits, dynamic hits, empty/NUL-terminated/'00000000' names, value lengths 0,1,127,128,300, store and sensitive flags. After every block: decodes to the same fields, sensitive fields never-indexed and not stored, size reductions announced first, encoder table == peer decoder table, table within the allowed size.",
+         "Trusted: ref/hpack.go and x/net (both decode every block). The peer is assumed to apply SETTINGS_HEADER_TABLE_SIZE when SetMaxTableSize is called.",
+         "DESIGN.md §4 C04"),
+ "C05": ("bounded-exhaustive enumeration of a boundary grid of frame values through the real serialisers and parsers against an independent RFC 7540 section 6 codec (validated against x/net's Framer)",
+         "Write side: every frame meaning of the grid (10 types x stream ids x flag setters x payload lengths 0..16384 x every pad length (thorough) x priority x boundary field values, SETTINGS via every subset of setters at boundary values) built through the public setters, serialised by WriteTo (twice), read by the independent parser. Read side: the independent writer's frames (x reserved bit x undefined flags x pad fill x reserved bits inside payload fields) read by ReadFrameFrom followed by a sentinel: same fields, exactly 9+length bytes consumed.",
+         "Trusted: peer/sem.go (RFC 7540 section 6 reader/writer), compared with x/net's Framer on every generated frame. Stream ids >= 2^31 are outside the write-side domain (documented API behaviour).",
+         "DESIGN.md §4 C05"),
+ "C16": ("bounded-exhaustive enumeration of frame headers x payloads and of all truncation offsets of a recorded stream through the real readers, with the pool tracker of the controlled runtime as ownership oracle",
+         "Frame header grid (17 lengths x 16 types x flags x 5 stream ids x 2 size limits) with all payloads up to 2 bytes and structural-byte sweeps beyond, each followed by a sentinel frame: never panics; error or a correct reading of exactly 9+length bytes; must-error for oversize, impossible fixed sizes and padding; unknown types skipped and positioned at the sentinel; allocation bounded by the limit; deterministic LIFO pools report double release and two acquirers never get the same object. Every cut offset of a 13-frame stream. HPACK: every byte string up to 2/3 bytes through Next at two table states: progress or error, bounded output.",
+         "Trusted: peer.SemOf; vsched.Pool (deterministic LIFO + double-release tracker) replaces sync.Pool through the overlay. Allocation is measured for lengths >= 16384 only.",
+         "DESIGN.md §4 C16"),
 }
 
 NOT_YET = "check not built yet (work in progress; see DESIGN.md §6 build order)"
